@@ -410,6 +410,8 @@ class G:
             pats = [VariantTy(t, i) for i in range(len(t.variants))]
         elif isinstance(t, Opt):
             pats = [t.inner, "nil"]
+            if "switch-array-arm" in self.avoid and isinstance(strip_distinct(t.inner), Array):
+                return ["nil", "default"]
         else:
             pats = [t.ok, t.err]
         if len(pats) > 1 and self.chance(3):
@@ -462,6 +464,12 @@ class G:
         """ctx: dict(ret=Ty, loops=[labels or None], blocks=[labels], in_main=bool, effects=bool)"""
         out = []
         env = list(env)
+        # defers come first in their block: a defer placed after a statement that can leave the
+        # block early may or may not run when it was not reached (C03 handles that case leniently)
+        if self.has("defer") and ctx.get("defer_ok", True):
+            for _ in range(self.int(0, 2)):
+                self.used.add("defer")
+                out.append(Defer(PutS(self.fresh("defer"))))
         n = self.int(0, budget)
         for _ in range(n):
             s = self.stmt(env, ctx, budget // 2)
@@ -486,8 +494,6 @@ class G:
             kinds += ["break", "continue"]
         if ctx.get("blocks") and self.has("labeled-blocks"):
             kinds += ["breakblock"]
-        if self.has("defer") and ctx.get("defer_ok", True):
-            kinds += ["defer"]
         if ctx.get("early_return", True) and self.chance(2):
             kinds += ["return"]
         if any(not self.pure.get(f.name, True) and self.feasible(f, env) for f in self.fns):
@@ -677,6 +683,9 @@ class G:
                         body += self.print_value(Cast(payload, Var(arg, vt)), payload, depth + 1)
                     arms.append((vt, body))
             elif isinstance(t0, Opt):
+                if "switch-array-arm" in self.avoid and isinstance(strip_distinct(t0.inner), Array):
+                    return [If(IsVariant(e, "nil", BOOL), [PutS("nil")],
+                               [PutS("some")] + self.print_value(Unwrap(e, None, t0.inner), t0.inner, depth + 1))]
                 arms.append((t0.inner, [PutS("some")] + self.print_value(Var(arg, t0.inner), t0.inner, depth + 1)))
                 arms.append(("nil", [PutS("nil")]))
             else:
